@@ -24,7 +24,7 @@ TABLE = {
                       "Proofs/DepSafe.v", "Proofs/C04Proofs.v"], n=(70, 700)),
     "C05": dict(kinds=["block", "step", "dep", "cblock", "cstep", "ublock"], oracle=oracles.c05, cone=LIVE, n=(70, 700)),
     "C06": dict(kinds=["block", "step", "dep", "cblock", "cstep", "fexec", "cblockd"], oracle=oracles.c06,
-                cone=SAFE + ["Proofs/ExecStarted.v", "Model/StepExec.v", "Model/FileExec.v", "Model/FileSpec.v", "Model/CacheExec.v", "Model/CacheSpec.v",
+                cone=SAFE + ["Proofs/ExecStarted.v", "Proofs/CacheStarted.v", "Model/StepExec.v", "Model/FileExec.v", "Model/FileSpec.v", "Model/CacheExec.v", "Model/CacheSpec.v",
                              "Proofs/FileSafe.v", "Proofs/FileRefute.v", "Proofs/CacheSafe.v", "Proofs/CacheCancel.v",
                              "Model/DepExec.v", "Proofs/StepSafe.v", "Proofs/DepSafe.v", "Proofs/Fidelity.v"], n=(70, 700)),
     "C07": dict(kinds=["step", "dep", "block", "cstep"], oracle=oracles.c07,
